@@ -2,9 +2,13 @@ import OxyModel.Props.C10
 #print axioms C10.C10_range
 #print axioms C10.C10_servable
 #print axioms C10.C10_once_per_backoff
-#print axioms C10.C10_outlier_share_not_up
+#print axioms C10.C10_mixed_share_not_up
 #print axioms C10.C10_outlier_means_mixed
+#print axioms C10.C10_outlier_share_not_up
+#print axioms C10.C10_negative_ratings_counterexample
 #print axioms C10.C10_membership_restores
 #print axioms C10.C10_timer_bound
-#print axioms C10.C10_outlier_loses
+#print axioms C10.C10_outlier_loses_partial
+#print axioms C10.C10_outlier_loses_within_partial
+#print axioms C10.C10_outlier_loses_counterexample
 #print axioms C10.C10_converges_in_6
